@@ -181,6 +181,8 @@ class ExprMixin:
     def e_UnaryOp(self, e, env, k):
         if isinstance(e.op, ast.USub):
             return self.expr(e.operand, env, lambda c, t: self.as_int(c, t, lambda v: k("(-{})".format(v), INT)))
+        if isinstance(e.op, ast.UAdd):      # +x: the integer itself (a list operand is a TypeError, as for -x)
+            return self.expr(e.operand, env, lambda c, t: self.as_int(c, t, lambda v: k(v, INT)))
         if isinstance(e.op, ast.Not):
             return self.boolval(e, env, k)
         raise Unsupported("unary " + src(e))
